@@ -437,6 +437,7 @@ func genCrypto(c *Ctx, which string) {
 		synthetic := src.codec == "avc" && scheme == "cenc" && c.R.Intn(3) == 0
 		fragCase(c, which, src, scheme, key, iv, nfr, extras, synthetic)
 	}
+	emitProtModel(c, which) // box bookkeeping of encrypt / decrypt against the Lean model (c0607model.go)
 }
 
 func checkRangesShape(c *Ctx, codec string, s []byte, rs []mp4.SubSamplePattern, req string) {
